@@ -1,15 +1,796 @@
 // Package lift rewrites float terms into exact integer (bit-vector) terms on
-// dyadic grids (float mode G of DESIGN.md 3.4).
+// dyadic grids (float mode G of DESIGN.md 3.4 and Appendix A).
+//
+// A float value is carried as k * 2^-s with k a signed bit-vector whose width
+// is tracked, so +, -, * and comparisons are exact (the encoder refuses, as
+// "poison", anything that would need more than 53 significant bits). Rounded
+// operations are not approximated: a quotient or a square root may only be
+// compared (exact by separation of distinct rationals / radicals on the
+// grid), never used in further arithmetic.
 package lift
 
 import (
 	"fmt"
+	"math"
+	"math/big"
 
 	"gosmt/smt"
 )
 
-type G struct{ c *smt.Ctx }
+type kind int
 
-func NewG(c *smt.Ctx) *G { return &G{c: c} }
+const (
+	kFin   kind = iota // k*2^-s (+ eps*ulp)
+	kRQ                // rounded quotient n/d
+	kRS                // rounded square root of r
+	kFuzzy             // (k*2^-s) + e*delta, delta in [0, ulp], > 0 iff strict
+)
 
-func (g *G) Lift(t *smt.Term) (*smt.Term, error) { return nil, fmt.Errorf("G mode not built") }
+type lv struct {
+	kind kind
+	// IEEE specials as symbolic flags (nil = false); when one is set the
+	// numeric fields are irrelevant.
+	nan, pinf, ninf *smt.Term
+	k   *smt.Term // signed BV of width w
+	w   int
+	s   int
+	eps int // kFin: +-1 after Nextafter, else 0
+
+	strict *smt.Term // kFuzzy: delta is strictly positive
+	e      int       // kFuzzy: sign of the infinitesimal part
+
+	n, d *lv // kRQ
+	r    *lv // kRS
+	loose bool // kRS from Hypot: equal radicands need not give equal results
+}
+
+// Poison is returned when a term leaves the exact domain.
+type Poison struct{ Why string }
+
+func (p *Poison) Error() string { return "outside the exact grid domain: " + p.Why }
+
+type G struct {
+	c     *smt.Ctx
+	memoF map[int]*lv
+	memoB map[int]*smt.Term
+	// Ambig collects conditions under which a comparison involving a nudged
+	// (Nextafter) value is not determined by the exact rules.
+	Ambig []*smt.Term
+}
+
+func NewG(c *smt.Ctx) *G {
+	return &G{c: c, memoF: map[int]*lv{}, memoB: map[int]*smt.Term{}}
+}
+
+const maxExactWidth = 54 // signed width: 53 significant bits + sign
+
+func poison(format string, a ...interface{}) error { return &Poison{Why: fmt.Sprintf(format, a...)} }
+
+// Lift rewrites a Bool term over floats into a Bool term over bit-vectors.
+func (g *G) Lift(t *smt.Term) (res *smt.Term, err error) {
+	defer func() {
+		if r := recover(); r != nil {
+			if p, ok := r.(*Poison); ok {
+				err = p
+				return
+			}
+			panic(r)
+		}
+	}()
+	return g.liftB(t), nil
+}
+
+func (g *G) fail(format string, a ...interface{}) { panic(&Poison{Why: fmt.Sprintf(format, a...)}) }
+
+func isFloat(t *smt.Term) bool { return t.Sort.K == smt.KF64 }
+
+func (g *G) liftB(t *smt.Term) *smt.Term {
+	if r, ok := g.memoB[t.ID]; ok {
+		return r
+	}
+	c := g.c
+	var r *smt.Term
+	switch t.Op {
+	case smt.OConst, smt.OVar:
+		r = t
+	case smt.ONot:
+		r = c.Not(g.liftB(t.Args[0]))
+	case smt.OAnd, smt.OOr:
+		as := make([]*smt.Term, len(t.Args))
+		for i, a := range t.Args {
+			as[i] = g.liftB(a)
+		}
+		if t.Op == smt.OAnd {
+			r = c.And(as...)
+		} else {
+			r = c.Or(as...)
+		}
+	case smt.OIte:
+		r = c.Ite(g.liftB(t.Args[0]), g.liftB(t.Args[1]), g.liftB(t.Args[2]))
+	case smt.OEq:
+		if t.Args[0].Sort.K == smt.KBool {
+			r = c.Eq(g.liftB(t.Args[0]), g.liftB(t.Args[1]))
+		} else {
+			r = c.Eq(g.liftV(t.Args[0]), g.liftV(t.Args[1]))
+		}
+	case smt.OULt, smt.OULe, smt.OSLt, smt.OSLe:
+		a, b := g.liftV(t.Args[0]), g.liftV(t.Args[1])
+		switch t.Op {
+		case smt.OULt:
+			r = c.ULt(a, b)
+		case smt.OULe:
+			r = c.ULe(a, b)
+		case smt.OSLt:
+			r = c.SLt(a, b)
+		default:
+			r = c.SLe(a, b)
+		}
+	case smt.OILt, smt.OILe:
+		r = t
+	case smt.OFLt:
+		r = g.cmp(g.liftF(t.Args[0]), g.liftF(t.Args[1]), "lt")
+	case smt.OFLe:
+		r = g.cmp(g.liftF(t.Args[0]), g.liftF(t.Args[1]), "le")
+	case smt.OFEq:
+		r = g.cmp(g.liftF(t.Args[0]), g.liftF(t.Args[1]), "eq")
+	case smt.OFIsNaN:
+		r = g.isNaN(g.liftF(t.Args[0]))
+	case smt.OFIsInf:
+		a := g.liftF(t.Args[0])
+		r = c.Or(g.isPInf(a), g.isNInf(a))
+	case smt.OFIsNeg:
+		a := g.liftF(t.Args[0])
+		r = g.cmp(a, g.constLV(0), "lt")
+		r = c.Or(r, g.isNInf(a))
+	default:
+		g.fail("bool op %v", t.Op)
+	}
+	g.memoB[t.ID] = r
+	return r
+}
+
+// liftV handles non-float, non-bool terms (bit-vectors) that may contain
+// float subterms only through FBits/FToSInt, which are outside G.
+func (g *G) liftV(t *smt.Term) *smt.Term {
+	switch t.Op {
+	case smt.OConst, smt.OVar:
+		return t
+	case smt.OIte:
+		return g.c.Ite(g.liftB(t.Args[0]), g.liftV(t.Args[1]), g.liftV(t.Args[2]))
+	case smt.OFBits, smt.OFToSInt:
+		g.fail("bit pattern / integer conversion of a computed float")
+	}
+	hasF := false
+	for _, a := range t.Args {
+		if isFloat(a) {
+			hasF = true
+		}
+	}
+	if hasF {
+		g.fail("bv op %v on float", t.Op)
+	}
+	// rebuild only if a child changes (children are bv/bool)
+	changed := false
+	as := make([]*smt.Term, len(t.Args))
+	for i, a := range t.Args {
+		if a.Sort.K == smt.KBool {
+			as[i] = g.liftB(a)
+		} else {
+			as[i] = g.liftV(a)
+		}
+		if as[i] != a {
+			changed = true
+		}
+	}
+	if !changed {
+		return t
+	}
+	return g.c.Rebuild(t, as)
+}
+
+func (g *G) constLV(f float64) *lv {
+	c := g.c
+	switch {
+	case f != f:
+		return &lv{kind: kFin, nan: c.True(), k: c.BVC(2, 0), w: 2}
+	case math.IsInf(f, 1):
+		return &lv{kind: kFin, pinf: c.True(), k: c.BVC(2, 0), w: 2}
+	case math.IsInf(f, -1):
+		return &lv{kind: kFin, ninf: c.True(), k: c.BVC(2, 0), w: 2}
+	case f == 0:
+		return &lv{kind: kFin, k: c.BVC(2, 0), w: 2}
+	}
+	m, e := math.Frexp(f) // f = m * 2^e, 0.5 <= |m| < 1
+	mi := int64(m * (1 << 53))
+	e -= 53
+	for mi%2 == 0 {
+		mi /= 2
+		e++
+	}
+	// f = mi * 2^e
+	s := 0
+	if e < 0 {
+		s = -e
+	} else {
+		if e > 40 {
+			g.fail("constant %v too large for the grid", f)
+		}
+		mi <<= uint(e)
+	}
+	if s > 60 {
+		g.fail("constant %v is not a short dyadic", f)
+	}
+	w := big.NewInt(mi).BitLen() + 2
+	return &lv{kind: kFin, k: c.IntC(w, mi), w: w, s: s}
+}
+
+func (g *G) liftF(t *smt.Term) *lv {
+	if r, ok := g.memoF[t.ID]; ok {
+		return r
+	}
+	c := g.c
+	var r *lv
+	switch t.Op {
+	case smt.OConst:
+		r = g.constLV(t.Float())
+	case smt.OFGrid:
+		k := t.Args[0]
+		r = &lv{kind: kFin, k: c.SExt(k, k.Sort.W+1), w: k.Sort.W + 1, s: t.I}
+	case smt.OIte:
+		r = g.ite(g.liftB(t.Args[0]), g.liftF(t.Args[1]), g.liftF(t.Args[2]))
+	case smt.OFNeg:
+		a := g.liftF(t.Args[0])
+		r = g.neg(a)
+	case smt.OFAbs:
+		a := g.liftF(t.Args[0])
+		isneg := g.cmp(a, g.constLV(0), "lt")
+		r = g.ite(c.Or(isneg, g.isNInf(a)), g.neg(a), a)
+	case smt.OFAdd:
+		r = g.add(g.liftF(t.Args[0]), g.liftF(t.Args[1]), false)
+	case smt.OFSub:
+		r = g.add(g.liftF(t.Args[0]), g.liftF(t.Args[1]), true)
+	case smt.OFMul:
+		r = g.mul(g.liftF(t.Args[0]), g.liftF(t.Args[1]))
+	case smt.OFDiv:
+		r = g.div(g.liftF(t.Args[0]), g.liftF(t.Args[1]))
+	case smt.OFSqrt:
+		a := g.liftF(t.Args[0])
+		g.needPlainFin(a, "sqrt operand")
+		r = &lv{kind: kRS, r: a}
+	case smt.OFNextUp, smt.OFNextDown:
+		a := g.liftF(t.Args[0])
+		g.needPlainFin(a, "Nextafter operand")
+		b := *a
+		if t.Op == smt.OFNextDown {
+			b.eps = a.eps - 1
+		} else {
+			b.eps = a.eps + 1
+		}
+		r = &b
+	case smt.OUF:
+		if t.Name == "hypot" {
+			// Hypot(x, 0) = |x|, Hypot(0, y) = |y| exactly; otherwise sqrt(x^2+y^2)
+			// is only comparable.
+			x, y := g.liftF(t.Args[0]), g.liftF(t.Args[1])
+			g.needPlainFin(x, "hypot operand")
+			g.needPlainFin(y, "hypot operand")
+			isZ := func(v *lv) bool { return v.k.IsConst() && v.k.U == 0 && v.eps == 0 }
+			if isZ(y) || isZ(x) {
+				o := x
+				if isZ(x) {
+					o = y
+				}
+				isneg := g.cmp(o, g.constLV(0), "lt")
+				r = g.ite(isneg, g.neg(o), o)
+				break
+			}
+			sq := g.add(g.mul(x, x), g.mul(y, y), false)
+			r = &lv{kind: kRS, r: sq, loose: true}
+			break
+		}
+		g.fail("libm function %s", t.Name)
+	case smt.OFFromSInt:
+		k := t.Args[0]
+		if k.Sort.W > 32 {
+			g.fail("int->float conversion of a wide integer")
+		}
+		r = &lv{kind: kFin, k: c.SExt(k, k.Sort.W+1), w: k.Sort.W + 1}
+	default:
+		g.fail("float op %v", t.Op)
+	}
+	g.memoF[t.ID] = r
+	return r
+}
+
+func (g *G) hasSpecial(a *lv) bool { return a.nan != nil || a.pinf != nil || a.ninf != nil }
+
+func (g *G) needPlainFin(a *lv, what string) {
+	if a.kind != kFin || g.hasSpecial(a) {
+		g.fail("%s is not a plain grid value", what)
+	}
+}
+
+func (g *G) flag(f *smt.Term) *smt.Term {
+	if f == nil {
+		return g.c.False()
+	}
+	return f
+}
+func (g *G) isNaN(a *lv) *smt.Term {
+	c := g.c
+	switch a.kind {
+	case kRQ:
+		// 0/0
+		return c.And(g.isZero(a.n), g.isZero(a.d))
+	case kRS:
+		return g.cmp(a.r, g.constLV(0), "lt")
+	}
+	return g.flag(a.nan)
+}
+func (g *G) isPInf(a *lv) *smt.Term {
+	c := g.c
+	if a.kind == kRQ {
+		return c.And(g.isZero(a.d), g.signPos(a.n))
+	}
+	if a.kind == kRS {
+		return c.False()
+	}
+	return g.flag(a.pinf)
+}
+func (g *G) isNInf(a *lv) *smt.Term {
+	c := g.c
+	if a.kind == kRQ {
+		return c.And(g.isZero(a.d), g.signNeg(a.n))
+	}
+	if a.kind == kRS {
+		return c.False()
+	}
+	return g.flag(a.ninf)
+}
+
+// isZero / signPos / signNeg of a plain Fin or Fuzzy numerator.
+func (g *G) isZero(a *lv) *smt.Term {
+	c := g.c
+	z := c.Eq(a.k, c.BVC(a.w, 0))
+	switch a.kind {
+	case kFin:
+		if a.eps != 0 {
+			return c.False()
+		}
+		return z
+	case kFuzzy:
+		// the finite part is zero exactly when the nudged value and the
+		// subtrahend coincide, and then delta = ulp > 0
+		return c.False()
+	}
+	g.fail("isZero of kind %d", a.kind)
+	return nil
+}
+
+func (g *G) signPos(a *lv) *smt.Term {
+	c := g.c
+	pos := c.SLt(c.BVC(a.w, 0), a.k)
+	z := c.Eq(a.k, c.BVC(a.w, 0))
+	switch a.kind {
+	case kFin:
+		if a.eps > 0 {
+			return c.Or(pos, z)
+		}
+		return pos
+	case kFuzzy:
+		if a.e > 0 {
+			return c.Or(pos, c.And(z, a.strict))
+		}
+		return pos
+	}
+	g.fail("sign of kind %d", a.kind)
+	return nil
+}
+func (g *G) signNeg(a *lv) *smt.Term {
+	c := g.c
+	neg := c.SLt(a.k, c.BVC(a.w, 0))
+	z := c.Eq(a.k, c.BVC(a.w, 0))
+	switch a.kind {
+	case kFin:
+		if a.eps < 0 {
+			return c.Or(neg, z)
+		}
+		return neg
+	case kFuzzy:
+		if a.e < 0 {
+			return c.Or(neg, c.And(z, a.strict))
+		}
+		return neg
+	}
+	g.fail("sign of kind %d", a.kind)
+	return nil
+}
+
+func orNil(c *smt.Ctx, cond *smt.Term, a, b *smt.Term) *smt.Term {
+	if a == nil && b == nil {
+		return nil
+	}
+	if a == nil {
+		a = c.False()
+	}
+	if b == nil {
+		b = c.False()
+	}
+	r := c.Ite(cond, a, b)
+	if r.IsFalse() {
+		return nil
+	}
+	return r
+}
+
+func (g *G) ite(cond *smt.Term, a, b *lv) *lv {
+	c := g.c
+	if cond.IsTrue() {
+		return a
+	}
+	if cond.IsFalse() {
+		return b
+	}
+	if a == b {
+		return a
+	}
+	if a.kind != b.kind || a.kind != kFin || a.eps != b.eps {
+		// different tags cannot be merged into one term
+		g.fail("ite over values of different exactness tags")
+	}
+	k1, k2, w, s := g.align(a, b)
+	return &lv{kind: kFin, k: c.Ite(cond, k1, k2), w: w, s: s, eps: a.eps,
+		nan: orNil(c, cond, a.nan, b.nan), pinf: orNil(c, cond, a.pinf, b.pinf), ninf: orNil(c, cond, a.ninf, b.ninf)}
+}
+
+// align brings two Fin values to a common scale and width.
+func (g *G) align(a, b *lv) (k1, k2 *smt.Term, w, s int) {
+	c := g.c
+	s = a.s
+	if b.s > s {
+		s = b.s
+	}
+	wa := a.w + (s - a.s)
+	wb := b.w + (s - b.s)
+	w = wa
+	if wb > w {
+		w = wb
+	}
+	sh := func(k *smt.Term, kw, by int) *smt.Term {
+		k = c.SExt(k, w)
+		if by > 0 {
+			k = c.Shl(k, c.BVC(w, uint64(by)))
+		}
+		return k
+	}
+	return sh(a.k, a.w, s-a.s), sh(b.k, b.w, s-b.s), w, s
+}
+
+func (g *G) neg(a *lv) *lv {
+	c := g.c
+	switch a.kind {
+	case kFin:
+		return &lv{kind: kFin, k: c.Neg(c.SExt(a.k, a.w+1)), w: a.w + 1, s: a.s, eps: -a.eps, nan: a.nan, pinf: a.ninf, ninf: a.pinf}
+	case kFuzzy:
+		return &lv{kind: kFuzzy, k: c.Neg(c.SExt(a.k, a.w+1)), w: a.w + 1, s: a.s, e: -a.e, strict: a.strict}
+	case kRQ:
+		return &lv{kind: kRQ, n: g.neg(a.n), d: a.d}
+	}
+	g.fail("negation of a rounded value")
+	return nil
+}
+
+func (g *G) anySpecial(a, b *lv) *smt.Term {
+	c := g.c
+	return c.Or(g.flag(a.nan), g.flag(a.pinf), g.flag(a.ninf), g.flag(b.nan), g.flag(b.pinf), g.flag(b.ninf))
+}
+
+func (g *G) add(a, b *lv, sub bool) *lv {
+	c := g.c
+	if sub {
+		b = g.neg0(b)
+	}
+	if a.kind != kFin || b.kind != kFin {
+		g.fail("addition involving a rounded value")
+	}
+	if g.hasSpecial(a) || g.hasSpecial(b) {
+		// Inf/NaN arithmetic: keep flags symbolic for the common cases
+		// x + Inf = Inf, Inf - Inf = NaN
+		if a.eps != 0 || b.eps != 0 {
+			g.fail("nudged value mixed with infinities")
+		}
+		k1, k2, w, s := g.align(a, b)
+		pin := c.Or(g.flag(a.pinf), g.flag(b.pinf))
+		nin := c.Or(g.flag(a.ninf), g.flag(b.ninf))
+		nan := c.Or(g.flag(a.nan), g.flag(b.nan), c.And(pin, nin))
+		r := &lv{kind: kFin, k: c.Add(c.SExt(k1, w+1), c.SExt(k2, w+1)), w: w + 1, s: s}
+		r.nan = nilIfFalse(nan)
+		r.pinf = nilIfFalse(c.And(pin, c.Not(nan)))
+		r.ninf = nilIfFalse(c.And(nin, c.Not(nan)))
+		g.checkWidth(r)
+		return r
+	}
+	k1, k2, w, s := g.align(a, b)
+	sum := c.Add(c.SExt(k1, w+1), c.SExt(k2, w+1))
+	if a.eps != 0 || b.eps != 0 {
+		if a.eps != 0 && b.eps != 0 {
+			g.fail("two nudged values combined")
+		}
+		e := a.eps + b.eps
+		// (x + e*ulp) - y: exact when x == y (Sterbenz), otherwise the ulp may be
+		// absorbed by rounding: delta in [0, ulp].
+		var strict *smt.Term
+		if a.eps != 0 {
+			strict = c.Eq(k1, c.Neg(k2))
+		} else {
+			strict = c.Eq(k2, c.Neg(k1))
+		}
+		return &lv{kind: kFuzzy, k: sum, w: w + 1, s: s, e: e, strict: strict}
+	}
+	r := &lv{kind: kFin, k: sum, w: w + 1, s: s}
+	g.checkWidth(r)
+	return r
+}
+
+func nilIfFalse(t *smt.Term) *smt.Term {
+	if t.IsFalse() {
+		return nil
+	}
+	return t
+}
+
+func (g *G) neg0(b *lv) *lv { return g.neg(b) }
+
+func (g *G) checkWidth(r *lv) {
+	if r.w > maxExactWidth+r.trailing() {
+		g.fail("result needs %d bits: not exactly representable", r.w)
+	}
+}
+
+func (r *lv) trailing() int { return 0 }
+
+func (g *G) mul(a, b *lv) *lv {
+	c := g.c
+	// 0 * (rounded finite value) = 0
+	if a.kind == kFin && !g.hasSpecial(a) && a.k.IsConst() && a.k.U == 0 && a.eps == 0 && (b.kind == kRS || b.kind == kRQ) {
+		return g.constLV(0)
+	}
+	if b.kind == kFin && !g.hasSpecial(b) && b.k.IsConst() && b.k.U == 0 && b.eps == 0 && (a.kind == kRS || a.kind == kRQ) {
+		return g.constLV(0)
+	}
+	if a.kind != kFin || b.kind != kFin || a.eps != 0 || b.eps != 0 {
+		g.fail("multiplication involving a rounded or nudged value")
+	}
+	w := a.w + b.w
+	r := &lv{kind: kFin, k: c.Mul(c.SExt(a.k, w), c.SExt(b.k, w)), w: w, s: a.s + b.s}
+	if g.hasSpecial(a) || g.hasSpecial(b) {
+		// Inf * 0 = NaN; Inf * x = +-Inf
+		za := c.And(c.Eq(a.k, c.BVC(a.w, 0)), c.Not(g.anySpecial(a, a)))
+		zb := c.And(c.Eq(b.k, c.BVC(b.w, 0)), c.Not(g.anySpecial(b, b)))
+		infA := c.Or(g.flag(a.pinf), g.flag(a.ninf))
+		infB := c.Or(g.flag(b.pinf), g.flag(b.ninf))
+		nan := c.Or(g.flag(a.nan), g.flag(b.nan), c.And(infA, zb), c.And(infB, za))
+		negA := c.Or(g.flag(a.ninf), c.And(c.Not(infA), c.SLt(a.k, c.BVC(a.w, 0))))
+		negB := c.Or(g.flag(b.ninf), c.And(c.Not(infB), c.SLt(b.k, c.BVC(b.w, 0))))
+		anyInf := c.Or(infA, infB)
+		neg := c.Xor(negA, negB)
+		r.nan = nilIfFalse(nan)
+		r.pinf = nilIfFalse(c.And(anyInf, c.Not(nan), c.Not(neg)))
+		r.ninf = nilIfFalse(c.And(anyInf, c.Not(nan), neg))
+	}
+	g.checkWidth(r)
+	return r
+}
+
+func (g *G) div(a, b *lv) *lv {
+	c := g.c
+	if b.kind == kFin && !g.hasSpecial(b) && b.eps == 0 && b.k.IsConst() {
+		// division by a power of two is a rescale
+		v := b.k.Int()
+		if v > 0 && v&(v-1) == 0 && (a.kind == kFin || a.kind == kFuzzy) {
+			sh := 0
+			for (int64(1) << uint(sh)) != v {
+				sh++
+			}
+			r := *a
+			r.s = a.s + sh - b.s
+			if r.s < 0 {
+				r.k = c.Shl(c.SExt(a.k, a.w-r.s), c.BVC(a.w-r.s, uint64(-r.s)))
+				r.w = a.w - r.s
+				r.s = 0
+			}
+			return &r
+		}
+	}
+	if (a.kind != kFin && a.kind != kFuzzy) || b.kind != kFin || b.eps != 0 || (a.kind == kFin && a.eps != 0) {
+		g.fail("division involving a rounded or nudged value")
+	}
+	if g.hasSpecial(a) || g.hasSpecial(b) {
+		g.fail("division involving infinities")
+	}
+	return &lv{kind: kRQ, n: a, d: b}
+}
+
+// ---- comparisons ----
+
+// cmp builds a <op> b with IEEE semantics (any comparison with NaN is false).
+func (g *G) cmp(a, b *lv, op string) *smt.Term {
+	c := g.c
+	nan := c.Or(g.isNaN(a), g.isNaN(b))
+	ai := c.Or(g.isPInf(a), g.isNInf(a))
+	bi := c.Or(g.isPInf(b), g.isNInf(b))
+	var special *smt.Term
+	switch op {
+	case "lt":
+		special = c.Or(c.And(g.isNInf(a), c.Not(g.isNInf(b))), c.And(g.isPInf(b), c.Not(g.isPInf(a))))
+	case "le":
+		special = c.Or(g.isNInf(a), g.isPInf(b))
+	default:
+		special = c.Or(c.And(g.isNInf(a), g.isNInf(b)), c.And(g.isPInf(a), g.isPInf(b)))
+	}
+	anyInf := c.Or(ai, bi)
+	if nan.IsFalse() && anyInf.IsFalse() {
+		return g.cmpFinite(a, b, op)
+	}
+	return c.And(c.Not(nan), c.Ite(anyInf, special, g.cmpFinite(a, b, op)))
+}
+
+// rat is a value as an exact fraction num/den (den > 0 not required; sign
+// handled by the caller) plus an infinitesimal sign term.
+func (g *G) cmpFinite(a, b *lv, op string) *smt.Term {
+	c := g.c
+	// square roots: compare radicands / squares
+	if a.kind == kRS || b.kind == kRS {
+		return g.cmpSqrt(a, b, op)
+	}
+	// bring both to fractions n/d with symbolic d sign
+	an, ad := g.frac(a)
+	bn, bd := g.frac(b)
+	// exact parts: an/ad ? bn/bd  <=>  an*bd*sgn ? bn*ad*sgn with sgn = sign(ad*bd)
+	n1, n2, w, _ := g.align(g.mulPlain(an, bd), g.mulPlain(bn, ad))
+	var sgnNeg *smt.Term = c.False()
+	if ad != nil || bd != nil {
+		da := g.one()
+		if ad != nil {
+			da = ad
+		}
+		db := g.one()
+		if bd != nil {
+			db = bd
+		}
+		sgnNeg = c.Xor(c.SLt(da.k, c.BVC(da.w, 0)), c.SLt(db.k, c.BVC(db.w, 0)))
+	}
+	lt := c.Ite(sgnNeg, c.SLt(n2, n1), c.SLt(n1, n2))
+	eq := c.Eq(n1, n2)
+	_ = w
+	// infinitesimal parts decide ties
+	ea, eb := g.infSign(a), g.infSign(b)
+	if ea == nil && eb == nil {
+		switch op {
+		case "lt":
+			return lt
+		case "le":
+			return c.Or(lt, eq)
+		default:
+			return eq
+		}
+	}
+	// tie-break: sign of (inf_a - inf_b); only one side may carry one
+	if ea != nil && eb != nil {
+		g.fail("comparison of two nudged values")
+	}
+	var pos, neg, zero *smt.Term // sign of a's infinitesimal minus b's
+	if ea != nil {
+		pos, neg, zero = ea.pos, ea.neg, ea.zero
+		if ea.und != nil {
+			g.Ambig = append(g.Ambig, c.And(eq, ea.und))
+		}
+	} else {
+		pos, neg, zero = eb.neg, eb.pos, eb.zero
+		if eb.und != nil {
+			g.Ambig = append(g.Ambig, c.And(eq, eb.und))
+		}
+	}
+	_ = pos
+	switch op {
+	case "lt":
+		return c.Or(lt, c.And(eq, neg))
+	case "le":
+		return c.Or(lt, c.And(eq, c.Or(neg, zero)))
+	default:
+		return c.And(eq, zero)
+	}
+}
+
+type infS struct{ pos, neg, zero, und *smt.Term }
+
+// infSign describes the sign of the infinitesimal component of a value.
+func (g *G) infSign(a *lv) *infS {
+	c := g.c
+	switch a.kind {
+	case kFin:
+		if a.eps == 0 {
+			return nil
+		}
+		return &infS{pos: c.BoolC(a.eps > 0), neg: c.BoolC(a.eps < 0), zero: c.False()}
+	case kFuzzy:
+		// delta > 0 when strict; otherwise undetermined (may have been absorbed)
+		return &infS{pos: c.BoolC(a.e > 0), neg: c.BoolC(a.e < 0), zero: c.False(), und: c.Not(a.strict)}
+	case kRQ:
+		s := g.infSign(a.n)
+		if s == nil {
+			return nil
+		}
+		dneg := c.SLt(a.d.k, c.BVC(a.d.w, 0))
+		return &infS{pos: c.Ite(dneg, s.neg, s.pos), neg: c.Ite(dneg, s.pos, s.neg), zero: s.zero, und: s.und}
+	}
+	return nil
+}
+
+func (g *G) one() *lv { return &lv{kind: kFin, k: g.c.IntC(2, 1), w: 2} }
+
+// frac returns numerator and denominator (nil = 1) of the exact part.
+func (g *G) frac(a *lv) (n, d *lv) {
+	switch a.kind {
+	case kFin, kFuzzy:
+		return a, nil
+	case kRQ:
+		return a.n, a.d
+	}
+	g.fail("fraction of kind %d", a.kind)
+	return nil, nil
+}
+
+// mulPlain multiplies exact parts ignoring infinitesimals (any width).
+func (g *G) mulPlain(a, b *lv) *lv {
+	c := g.c
+	if b == nil {
+		return &lv{kind: kFin, k: a.k, w: a.w, s: a.s}
+	}
+	w := a.w + b.w
+	return &lv{kind: kFin, k: c.Mul(c.SExt(a.k, w), c.SExt(b.k, w)), w: w, s: a.s + b.s}
+}
+
+// cmpSqrt compares where at least one side is a rounded square root of an
+// exact non-negative radicand (Lemma S: distinct radicals / grid values are
+// separated by more than the rounding error).
+func (g *G) cmpSqrt(a, b *lv, op string) *smt.Term {
+	c := g.c
+	sq := func(x *lv) *lv { // value squared, and its sign
+		if x.kind == kRS {
+			return x.r
+		}
+		if x.kind != kFin || x.eps != 0 {
+			g.fail("square root compared with a rounded value")
+		}
+		return g.mulPlain(x, x)
+	}
+	negSide := func(x *lv) *smt.Term { // x < 0
+		if x.kind == kRS {
+			return c.False()
+		}
+		return c.SLt(x.k, c.BVC(x.w, 0))
+	}
+	a2, b2 := sq(a), sq(b)
+	n1, n2, _, _ := g.align(a2, b2)
+	an, bn := negSide(a), negSide(b)
+	// both non-negative: compare squares; a<0<=b: a<b; b<0<=a: a>b; both negative: reversed
+	ltSq, eqSq := c.SLt(n1, n2), c.Eq(n1, n2)
+	lt := c.Ite(an, c.Ite(bn, c.SLt(n2, n1), c.True()), c.Ite(bn, c.False(), ltSq))
+	eq := c.And(c.Eq(an, bn), eqSq)
+	if (a.kind == kRS && a.loose || b.kind == kRS && b.loose) && a != b {
+		g.Ambig = append(g.Ambig, eq)
+	}
+	switch op {
+	case "lt":
+		return lt
+	case "le":
+		return c.Or(lt, eq)
+	}
+	return eq
+}
+
+// TakeAmbig returns the accumulated undetermined-tie conditions. They stay
+// registered (memoised lifts do not re-add them), so every query of the
+// session is made under their negation.
+func (g *G) TakeAmbig() []*smt.Term { return g.Ambig }
